@@ -43,6 +43,11 @@ pub struct Plan {
     /// use Int32 / Float32 columns for Int64 / Float64 properties when exact
     pub narrow: bool,
     pub extra: Vec<ExtraProp>,
+    /// freedoms of the SSTR chunk: bit 0 = hash fields all zero ("isn't used ... when loading"),
+    /// bit 1 = table padded with unreferenced entries and duplicates (columns point at either copy),
+    /// bit 2 = an SSTR chunk of zero entries when no shared string is used
+    #[serde(default)]
+    pub sstr_mode: u8,
 }
 
 impl Plan {
@@ -56,6 +61,7 @@ impl Plan {
             junk: vec![],
             narrow: false,
             extra: vec![],
+            sstr_mode: 0,
         }
     }
     fn key(&self, salt: usize, i: usize) -> u64 {
@@ -318,6 +324,18 @@ pub fn encode(f: &GForest, plan: &Plan, dialect: Dialect) -> Result<Built, Strin
         idx.sort_by_key(|i| plan.key(3, *i));
         sstr = idx.into_iter().map(|i| sstr[i].clone()).collect();
     }
+    if plan.sstr_mode & 2 != 0 && !sstr.is_empty() {
+        let mut padded = Vec::new();
+        for (i, s) in sstr.iter().enumerate() {
+            padded.push(s.clone());
+            padded.push(format!("unreferenced shared string {i}").into_bytes());
+        }
+        for s in sstr.iter().rev() {
+            padded.push(s.clone());
+        }
+        sstr = padded;
+        degrees.push("sstr_duplicates_and_unreferenced");
+    }
 
     let ref_of = |r: &GRef| -> i32 {
         match r {
@@ -444,10 +462,15 @@ pub fn encode(f: &GForest, plan: &Plan, dialect: Dialect) -> Result<Built, Strin
             comp: comp_of(b"META"),
         });
     }
-    if !sstr.is_empty() {
+    if !sstr.is_empty() || plan.sstr_mode & 4 != 0 {
+        if sstr.is_empty() {
+            degrees.push("sstr_chunk_of_zero_entries");
+        } else if plan.sstr_mode & 1 != 0 {
+            degrees.push("sstr_hashes_zero");
+        }
         chunks.push(PlannedChunk {
             name: *b"SSTR",
-            data: refbin::sstr_chunk(&sstr),
+            data: refbin::sstr_chunk_with(&sstr, plan.sstr_mode & 1 != 0),
             comp: comp_of(b"SSTR"),
         });
     }
@@ -676,7 +699,9 @@ pub fn build_column(
             for v in values {
                 match v {
                     GVal::SharedString(b) => {
-                        out.push(sstr.iter().position(|s| s == b).ok_or("sstr missing")? as u32)
+                        // with a padded table (duplicates) alternate between the first and the last copy
+                        let at = if out.len() % 2 == 0 { sstr.iter().position(|s| s == b) } else { sstr.iter().rposition(|s| s == b) };
+                        out.push(at.ok_or("sstr missing")? as u32)
                     }
                     other => return Err(format!("{:?} in a SharedString column", other.ty())),
                 }
